@@ -2,6 +2,12 @@
 and the signature function that labels a failing case for known_findings.jsonl."""
 
 PROPS = {
+    'C12': {
+        'families': [('c12', 80, 800)],
+        'rule': 'random interleavings of {Put, Discard+reopen, Finalize+reopen, file snapshot} on one file ending in Finalize, with the final bytes compared with the uninterrupted session (specification layout of the log) x option configurations x {blockstore.OpenReadWrite on a real file, storage.OpenReadableWritable on an in-memory file}; reopen attempts with single-field mismatches (version, data padding, roots, root permutation, same set/different multiset) followed by a file snapshot that must equal the bytes before; distinct = distinct script text',
+        'trusted': [],
+        'assumptions': ['root lists that are permutations of each other are not "different roots" (CarHeader.Matches documents order-insensitivity)'],
+    },
     'C14': {
         'families': [('c14', 40, 400)],
         'rule': 'generated valid archives (CARv1, CARv2 with data padding, index after the payload) x Next/SkipNext choice strings (all-skip plus random strings, two calls past the end) x {bytes.Reader-like source with ReadByte, file-like source with Read+Seek only, plain io.Reader, a real *os.File}; every BlockMetadata field, every block, the EOF position and the exact number of bytes read from the wrapped source are compared; distinct = distinct script text',
@@ -76,6 +82,12 @@ def signature(pid, script, I, S):
         if 'flip' in toks:
             return 'C02/corruption-not-reported'
         return 'C02/unsound-block-returned'
+    if pid == 'C12':
+        if fam == 'reopen':
+            return 'C12/reopen-verdict-differs'
+        if fam == 'file':
+            return 'C12/file-bytes-differ-after-resumption'
+        return 'C12/' + fam + '-result-differs-after-resumption'
     if pid in ('C04', 'C05', 'C01'):
         if fam == 'size' and _cid_is_identity(toks.get('c', '')):
             return pid + '/getsize-identity-ignores-store-identity-option'
